@@ -34,13 +34,15 @@ class StreamOp:
         return g.id if isinstance(g, ast.Name) else None
 
     def stride(self, loop: PlanLoop) -> tuple[Poly, Poly, Poly]:
-        """(G, S, G - S) with G the symbol of the gulp variable passed to read_plan."""
+        """(G, S, G - S): G is the gulp handed to read_plan - the symbol of the local variable when a name is passed,
+        otherwise the canonical form of the expression (so a later use of a different `gulp` does not match it)."""
         g = self.gulp_name(loop)
-        if g is None:
-            raise AnalysisError(f"{self.fn.ident}: read_plan is not given gulp=<local name>")
-        G = Poly.sym(g)
+        gexpr = loop.kw("gulp")
+        if gexpr is None:
+            raise AnalysisError(f"{self.fn.ident}: read_plan is called without gulp=")
+        G = Poly.sym(g) if g is not None else self.poly(gexpr, loop.call)
         sb = loop.kw("skipback")
-        S = self.poly(sb, loop.call, stop={g}) if sb is not None else Poly.const(0)
+        S = self.poly(sb, loop.call, stop={g} if g else set()) if sb is not None else Poly.const(0)
         return G, S, G - S
 
     def kernel_calls(self, loop: PlanLoop) -> list[tuple[ast.Call, FuncInfo]]:
@@ -90,10 +92,10 @@ class StreamOp:
             elif role == "nsamples_total":
                 ok, want = norm(arg) == "self.header.nsamples", "self.header.nsamples"
             elif role == "maxdelay":
-                p = self.poly(arg, call, stop={g})
+                p = self.poly(arg, call, stop={g} if g else set())
                 ok, want = p == S, f"the plan's skipback ({S.canon()})"
             elif role == "index":
-                p = self.poly(arg, call, stop={g, loop.index})
+                p = self.poly(arg, call, stop=({g} if g else set()) | {loop.index})
                 w = Poly.sym(loop.index) * stride
                 ok, want = p == w, f"block index * (gulp - skipback) = {w.canon()}"
             elif role == "zero":
